@@ -131,6 +131,17 @@ var redirectTable = map[string][2]string{
 	"(*github.com/jackc/pgx/v5/pgxpool.Pool).Exec":        {repoMod + "/shovel", "zzPoolExec"},
 	"(*" + repoMod + "/jrpc2.URL).String":                 {repoMod + "/jrpc2", "zzURLString"},
 	"(*" + repoMod + "/jrpc2.URL).Hostname":               {repoMod + "/jrpc2", "zzURLHostname"},
+	"github.com/kr/session.Get":                           {repoMod + "/shovel/web", "zzSessionGet"},
+	"github.com/kr/session.Set":                           {repoMod + "/shovel/web", "zzSessionSet"},
+	"net/http.Redirect":                                   {repoMod + "/shovel/web", "zzRedirect"},
+	"net/http.Error":                                      {repoMod + "/shovel/web", "zzHTTPError"},
+	"(*net/http.Request).ParseForm":                       {repoMod + "/shovel/web", "zzParseForm"},
+	"(*net/http.Request).FormValue":                       {repoMod + "/shovel/web", "zzFormValue"},
+	"net.SplitHostPort":                                   {repoMod + "/shovel/web", "zzSplitHostPort"},
+	"net.ParseIP":                                         {repoMod + "/shovel/web", "zzParseIP"},
+	"(net.IP).IsLoopback":                                 {repoMod + "/shovel/web", "zzIPIsLoopback"},
+	"filippo.io/age.GenerateX25519Identity":               {repoMod + "/shovel/web", "zzAgeIdentity"},
+	"(*" + repoMod + "/shovel/web.Handler).template":      {repoMod + "/shovel/web", "zzTemplate"},
 }
 
 // nativeCuts: how the same cut points are applied for native replay. The
@@ -144,9 +155,30 @@ type nativeCut struct {
 	New     string // replacement
 	Wrapper string // Go source appended as an extra file of that package
 	All     bool   // replace every occurrence
+	Repl    [][2]string // further (old, new) pairs applied to the same file (all occurrences)
+	Append  string      // appended to the rewritten file (keeps imports used)
 }
 
 var nativeCuts = []nativeCut{
+	{
+		Pkg:  "shovel/web",
+		File: "shovel/web/web.go",
+		Old:  "session.Get(",
+		New:  "zzSessionGet(",
+		All:  true,
+		Repl: [][2]string{
+			{"session.Set(", "zzSessionSet("},
+			{"http.Redirect(", "zzRedirect("},
+			{"http.Error(", "zzHTTPError("},
+			{"r.ParseForm()", "zzParseForm(r)"},
+			{"r.FormValue(\"password\")", "zzFormValue(r, \"password\")"},
+			{"net.SplitHostPort(", "zzSplitHostPort("},
+			{"net.ParseIP(host).IsLoopback()", "zzIsLoopbackHost(host)"},
+			{"h.template(isLoopback(r), \"login\")", "zzTemplate(h, isLoopback(r), \"login\")"},
+			{"age.GenerateX25519Identity()", "zzAgeIdentity()"},
+		},
+		Append: "\nvar _ = age.GenerateX25519Identity\nvar _ = session.Get\nvar _ = net.ParseIP\nvar _ = http.Redirect\n",
+	},
 	{
 		Pkg:  "shovel",
 		File: "shovel/task.go",
